@@ -181,6 +181,8 @@ def report(mod, prop, tier, seed, ctx, results, wall, pre_info, partial=False):
     if not partial and getattr(mod, "GROUP_WITNESS", True):
         groups = {}
         for r in results:
+            if r.q.group.startswith("~"):
+                continue  # a mode of a harness shared with another property: only the per-query witness rule applies
             g = groups.setdefault(r.q.group, {"ok": set(), "missing": set()})
             g["ok"].update(r.witness_ok)
             g["missing"].update(r.witness_missing)
